@@ -2,7 +2,8 @@ import Hls.Pool.Lemmas
 /-!
   The Low-Latency loop of the stream downloader (`runLowLatency`) inside the regenerated blocking graph:
 
-      preload-hint request → reading its body → playlist reload → reading it → (next hint | "preload hint disappeared")
+      preload-hint request → reading its body → playlist reload → reading it →
+          (next hint | end of stream: `push(nil); <-ctx.Done()` (fix-F28) | "preload hint disappeared")
 
   `llLoops` FINDS the loop in a graph (by the functions the rows of its nodes belong to and by the `ok` arms that
   connect them); `LLLoop.ok` is the decidable statement that each of its four blocking operations has the pool-context
@@ -15,6 +16,8 @@ structure LLLoop where
   hintBody : Nat
   reload : Nat
   reloadBody : Nat
+  /-- `<-ctx.Done()` after `push(nil)`: where the downloader of a stream that has ended waits for Close -/
+  eosWait : Nat
   deriving DecidableEq, Repr
 
 def nodeOf (rows : List Row) (g : TaskGraph) (kind : OpKind) (fn : String) (i : Nat) : Bool :=
@@ -37,9 +40,11 @@ def okRets (g : TaskGraph) (i : Nat) : List RetK :=
 
 def llHintFn : String := "clientStreamDownloader.downloadPreloadHint"
 def llReloadFn : String := "downloadPlaylist"
+def llLoopFn : String := "clientStreamDownloader.runLowLatency"
 
-/-- every Low-Latency loop of the graph: hint → hint body → reload → reload body → back to the hint, with the exit
-    `return fmt.Errorf("preload hint disappeared")` after the reload -/
+/-- every Low-Latency loop of the graph: hint → hint body → reload → reload body → back to the hint, with the exits
+    `return fmt.Errorf("preload hint disappeared")` and (fix-F28) the end-of-stream wait `<-ctx.Done()` of
+    `runLowLatency` after the reload -/
 def llLoops (rows : List Row) (g : TaskGraph) : List LLLoop :=
   (List.range g.nodes.length).flatMap fun h =>
     if nodeOf rows g .httpDo llHintFn h then
@@ -47,9 +52,10 @@ def llLoops (rows : List Row) (g : TaskGraph) : List LLLoop :=
         if nodeOf rows g .bodyRead llHintFn hb then
           (okNext g hb).flatMap fun r =>
             if nodeOf rows g .httpDo llReloadFn r then
-              (okNext g r).filterMap fun rb =>
+              (okNext g r).flatMap fun rb =>
                 if nodeOf rows g .bodyRead llReloadFn rb && (okNext g rb).contains h && (okRets g rb).contains .other
-                then some ⟨h, hb, r, rb⟩ else none
+                then ((okNext g rb).filter (nodeOf rows g .recvCtxDone llLoopFn)).map fun w => ⟨h, hb, r, rb, w⟩
+                else []
             else []
         else []
     else []
@@ -64,12 +70,20 @@ def llNodeOk (g : TaskGraph) (i : Nat) : Bool :=
       | _ => a.next == [.ret .io])
   | none => false
 
-def LLLoop.ok (g : TaskGraph) (l : LLLoop) : Bool := l.nodes.all (llNodeOk g)
+/-- the end-of-stream wait: its only arms are `<-ctx.Done()` of the pool context, and they lead to the return
+    ("terminated") -/
+def llEosOk (g : TaskGraph) (i : Nat) : Bool :=
+  match g.nodes[i]? with
+  | some n => n.guarded && n.arms.all (fun a => a.kind == .ctxDone .pool && a.next == [.ret .terminated])
+  | none => false
+
+def LLLoop.ok (g : TaskGraph) (l : LLLoop) : Bool := l.nodes.all (llNodeOk g) && llEosOk g l.eosWait
 
 /-- in a Low-Latency loop that is `ok`, the step a cancelled downloader takes from any of the four operations is the
     return of `run` (with the error of the cancelled request) -/
 theorem ll_cancel_returns {g : TaskGraph} {l : LLLoop} (hl : l.ok g = true) {i : Nat} (hi : i ∈ l.nodes)
     {t : Target} (hs : CStep g (.node i) false t) : t = .ret .io := by
+  have hl := (Bool.and_eq_true _ _ ▸ hl : _ ∧ _).1
   have hn := List.all_eq_true.mp hl i hi
   cases hs with
   | quiet hnode ha ht =>
@@ -87,5 +101,25 @@ theorem ll_cancel_returns {g : TaskGraph} {l : LLLoop} (hl : l.ok g = true) {i :
     | send ch => rw [hk] at hc; cases hc
     | timeAfter => rw [hk] at hc; cases hc
     | fail => rw [hk] at hc; cases hc
+
+/-- a downloader whose stream has ended (parked in `<-ctx.Done()` after the nil marker): once the pool is cancelled
+    its only step is the return of `run` -/
+theorem ll_eos_cancel_returns {g : TaskGraph} {l : LLLoop} (hl : l.ok g = true)
+    {t : Target} {b : Bool} (hs : CStep g (.node l.eosWait) b t) : t = .ret .terminated := by
+  have hn := (Bool.and_eq_true _ _ ▸ hl : _ ∧ _).2
+  cases hs with
+  | quiet hnode ha ht =>
+    rename_i n a
+    simp only [llEosOk, hnode, Bool.and_eq_true, List.all_eq_true] at hn
+    have := (hn.2 a (cancelArms_sub ha)).2
+    simp at this
+    rw [this] at ht; simpa using ht
+  | detour hnode hg ha hk ht =>
+    rename_i n a
+    simp only [llEosOk, hnode, Bool.and_eq_true, List.all_eq_true] at hn
+    have := (hn.2 a ha).1
+    simp at this
+    rw [this] at hk
+    cases hk
 
 end Hls.Pool
